@@ -15,12 +15,14 @@
     stmt_xform_supported stmt_pipeline_roundtrip stmt_pipeline_faithful
     leaves_in_order leaves_in_order_supported leavesS_in_order leavesS_in_order_supported
     leaves_in_order_after_rewriting leaves_need_domain
+    writer_is_lines code_is_rendered_lines indentation_read_back try_blank_line_example
 -/
 import Genshi.Lemmas.PyParseS5
 import Genshi.Lemmas.PyStmtSpec
 import Genshi.Lemmas.PyStmtUnxf
 import Genshi.Lemmas.PyStmtWF
 import Genshi.Lemmas.PyLeavesWF
+import Genshi.Lemmas.PyLayout
 namespace Genshi.Props.C13
 open Genshi.Py Genshi.Gen
 
@@ -469,5 +471,64 @@ example : leaves exCall = [.name ['f'], .name ['a'], .name ['b'], .name ['k'], .
 example : leafOK exCall = true ∧ leafOK exLambda = true ∧ leafOKB exModule = true := by decide
 example : (leavesB exModule).length = 79 := rfl
 example : (leavesB exModule).Sublist (lineToks (genBody 0 exModule)) := leavesS_in_order _ 0 (by decide)
+
+/-! ### character level: the writer (`_new_line`, `_write`, `_change_indent`) and the indentation
+
+Model `genStmtW` (`Model/PyLayout.lean`): the statement visitors as transformers of the writer state
+(`self.code`, `self.line`, `self.indent`), compared with `ASTCodeGenerator(tree).code` by exact
+string equality.  Abstraction `genStmtC`: physical lines (depth + text).  Reader `retok`: the
+indentation stack of CPython's tokenizer (compared with `tokenize` by the harness). -/
+
+/-- **The writer writes exactly the physical lines** `genBodyC`: from any writer state, visiting a
+    body leaves the state in which those lines have been started one after the other — the pending
+    line flushed with a newline, every line `4 * depth` blanks + text, the last one still open,
+    `self.indent` restored (all statements, any nesting). -/
+theorem writer_is_lines (ss : List PyStmt) (w : W) : genBodyW ss w = w.push (genBodyC w.indent ss) :=
+  genBodyW_eq ss w
+
+/-- `ASTCodeGenerator(Module(body)).code` is the rendering of those lines (a last line that is
+    whitespace only is dropped by `__init__`) -/
+theorem code_is_rendered_lines (body : List PyStmt) (hok : genOkBody body = true) (hne : genBodyC 0 body ≠ []) :
+    codeS body = some (renderT (trimLast (genBodyC 0 body))) :=
+  codeS_lines body hok hne
+
+/-- **INDENT / DEDENT structure.**  Splitting the generated string into physical lines and running
+    the tokenizer's indentation stack over it gives back exactly the non-blank lines the visitors
+    wrote, each at the depth of the generator's `self.indent` — for every module body and every
+    nesting depth; no `IndentationError`, and the whitespace-only line `visit_Try` leaves behind
+    opens or closes no block.  Hypothesis on the line texts only: no newline inside, no leading
+    whitespace (checked by `lineOKb`, decidable; the text → token step inside a line is tied by
+    the harness stream `retok-vs-tokenize`). -/
+theorem indentation_read_back (body : List PyStmt) (hok : genOkBody body = true) (hne : genBodyC 0 body ≠ [])
+    (hl : (genBodyC 0 body).all lineOKb = true) :
+    ∃ code, codeS body = some code ∧
+      retok code = some (((genBodyC 0 body).filter (fun l => !l.blank)).map fun l => (l.indent, l.text)) :=
+  retok_codeS body hok hne (fun l h => lineOK_of_b (List.all_eq_true.mp hl l h))
+
+/-- ```
+    def f():
+        try:
+            pass
+        except E:
+            pass
+        <- whitespace-only line written by visit_Try
+        return x
+    ``` -/
+def exTry : List PyStmt :=
+  [.functionDef ['f'] [] [] none [] none
+    [.try_ [.pass_] [.handler (some (.name ['E'])) none [.pass_]] [] [], .return_ (some (.name ['x']))] [] none false]
+
+theorem try_blank_line_example :
+    codeS exTry = some cs!"def f():\n    try:\n        pass\n    except E:\n        pass\n    \n    return x\n"
+    ∧ (codeS exTry).bind retok = some [(0, cs!"def f():"), (1, cs!"try:"), (2, cs!"pass"), (1, cs!"except E:"),
+        (2, cs!"pass"), (1, cs!"return x")] := by
+  constructor <;> decide +kernel
+
+example : (genBodyC 0 exModule).all lineOKb = true := by decide +kernel
+example : ((genBodyC 0 exModule).filter (fun l => !l.blank)).map (·.indent) = (genBody 0 exModule).map (·.indent) := by
+  decide +kernel
+example : ∃ code, codeS exModule = some code ∧
+    retok code = some (((genBodyC 0 exModule).filter (fun l => !l.blank)).map fun l => (l.indent, l.text)) :=
+  indentation_read_back exModule (by decide +kernel) (by decide +kernel) (by decide +kernel)
 
 end Genshi.Props.C13
